@@ -86,6 +86,14 @@ def run(env, tier, seed, broken=None):
         '%s f = 2;\n%s f() { %s 1; }\n%s f;\n' % (VAR, FUN, RETURN, PRINT),
         '%s a = 1;\n%s (a < 3) { %s b = a; a = a + 1; %s b; }\n' % (VAR, WHILE, VAR, PRINT),
     ]
+    Y = 'বয়স'        # contains U+09DF, which is not stable under NFC
+    extra += [
+        '%s %s = 21;\n{ %s %s = 10; %s %s; }\n%s %s;\n%s %s = 30;\n%s %s;\n' % (VAR, Y, VAR, Y, PRINT, Y, PRINT, Y, VAR, Y, PRINT, Y),
+        '%s %s(%s) { %s %s; }\n%s %s(4);\n%s %s;\n' % (FUN, 'f' + Y, Y, RETURN, Y, PRINT, 'f' + Y, PRINT, 'f' + Y),
+        '%s q;\n%s q = 2;\n' % (VAR, VAR), '%s q = %s;\n%s q;\n%s "no";\n' % (VAR, NIL, VAR, PRINT), '%s nf() { }\n%s r = nf();\n%s r = 1;\n' % (FUN, VAR, VAR),
+        '%s f(p) { %s p = 1; %s p; }\n%s f(%s);\n' % (FUN, VAR, RETURN, PRINT, NIL), '{ %s z; { z = 1; } %s z; %s z; }\n' % (VAR, PRINT, VAR),
+        '%s = 7;\n%s %s;\n%s inner() { %s = 8; }\ninner();\n%s %s;\n' % (ABS, PRINT, ABS, FUN, ABS, PRINT, ABS),
+    ]
     for e in extra:
         cases.append({'id': 'e%d' % n, 'src': e}); n += 1
     for i in range(1500 if tier == 'quick' else 40000):
